@@ -7,7 +7,7 @@ from sa.astx import body_walk, call_attr, call_name, dotted, src
 from sa.effects import class_accesses
 from sa.selftest import Mutant, Silent
 from sa.source import AnalysisError, methods
-from sa.props._lib_c import (anchor, section, EvalAssert, EvalUnsupported, Interp, SelfRef, all_funcs_of_class, assign_pairs, guarded_not_none,
+from sa.props._lib_c import (norm_class, norm_func, Closure, anchor, section, EvalAssert, EvalUnsupported, Interp, SelfRef, all_funcs_of_class, assign_pairs, guarded_not_none,
                              gfind, is_const, is_none_test, must_pass, nested_defs, no_exc, self_attr)
 
 PROPERTY = "C10"
@@ -26,6 +26,9 @@ EXPLANATION = (
     "behaviour for non-dyadic intervals, restart / reset interaction with the skip counter, the clock implementation."
 )
 ASSUMPTIONS = [
+    "rules read a normalised copy of the class: a private non-generator method that is not an anchor, is only ever called as self._h(...) "
+    "inside its class and is mentioned in no other module is inlined at its call sites; single-assignment naming temporaries are substituted "
+    "only where nothing they read is written (and no call runs) in between",
     "clock.callLater(delay, f) calls f once, not before delay has elapsed (C08/C09)",
     "Deferred callbacks registered on maybeDeferred's result run only when that result fires (C01/C03)",
     "dyadic sample domain of (interval, starttime, when) is representative of the delay arithmetic; evaluation uses Python float semantics",
@@ -85,14 +88,16 @@ def _registrations(f_call):
 
 def check(ctx):
     mod = ctx.mod(TASK)
-    cls = ctx.cls(TASK, "LoopingCall")
+    KEEP = ("__init__", "start", "stop", "reset", "__call__", "_scheduleFrom", "withCount", "_intervalOf", "deferred", "__repr__")
+    # normalised view: private helpers that are not anchors (e.g. a `_takeDeferred()` doing the swap) are inlined at their call sites
+    cls = norm_class(ctx, TASK, "LoopingCall", KEEP)
     meths = methods(cls)
-    f_call = anchor(ctx, TASK, "LoopingCall.__call__")
-    f_start = anchor(ctx, TASK, "LoopingCall.start")
-    f_stop = anchor(ctx, TASK, "LoopingCall.stop")
-    f_reset = anchor(ctx, TASK, "LoopingCall.reset")
-    f_sched = anchor(ctx, TASK, "LoopingCall._scheduleFrom")
-    f_wc = anchor(ctx, TASK, "LoopingCall.withCount")
+    f_call = norm_func(ctx, TASK, "LoopingCall", "__call__", KEEP)
+    f_start = norm_func(ctx, TASK, "LoopingCall", "start", KEEP)
+    f_stop = norm_func(ctx, TASK, "LoopingCall", "stop", KEEP)
+    f_reset = norm_func(ctx, TASK, "LoopingCall", "reset", KEEP)
+    f_sched = norm_func(ctx, TASK, "LoopingCall", "_scheduleFrom", KEEP)
+    f_wc = norm_func(ctx, TASK, "LoopingCall", "withCount", KEEP)
     funcs = all_funcs_of_class(cls)
     nested, cbs, ebs, md_calls = {}, set(), set(), []
     with section(ctx, "callbacks registered by __call__"):
@@ -221,7 +226,11 @@ def check(ctx):
     with section(ctx, '_scheduleFrom shape'):
         qs = f"{Q}._scheduleFrom"
         cl = [c for c in body_walk(f_sched) if isinstance(c, ast.Call) and call_attr(c) == "callLater"]
-        ctx.check(len(cl) == 1, "schedule/one-callLater", qs, f"_scheduleFrom contains {len(cl)} callLater sites (exactly one expected)")
+        gs_ = ctx.cfg(f_sched)
+        cln = gfind(gs_, lambda x: isinstance(x, ast.Call) and call_attr(x) == "callLater")
+        twice = next((gs_.path([a], [b], strict=True) for a in cln for b in cln if gs_.path([a], [b], strict=True)), None)
+        ctx.check(len(cl) >= 1 and twice is None, "schedule/one-callLater", qs,
+                  f"_scheduleFrom schedules {'no' if not cl else 'more than one'} call per invocation", witness=gs_.describe(twice))
         for c in cl:
             ok = len(c.args) == 2 and isinstance(c.args[1], ast.Name) and c.args[1].id == "self" and not c.keywords
             ctx.check(ok, "schedule/one-callLater", ctx.construct(qs, c), "callLater is not given exactly (delay, self)")
@@ -470,6 +479,10 @@ def _eval_counter(ctx, f_wc, meths):
     if len(ctor) != 1 or len(params) < 2:
         return
     counter = nd[ctor[0].args[0].id]
+    # sibling closures of withCount (helpers the counter calls) are interpreted too
+    siblings = {"__outer__": None}
+    for nm, fn in nd.items():
+        siblings[nm] = Closure(fn, siblings)
     # the receiver name used inside the counter is the local the instance is bound to
     self_names = {t.id for st in body_walk(f_wc) for t, v in assign_pairs(st) if isinstance(t, ast.Name) and v is ctor[0]} or {"self"}
     cb_name = params[1]
@@ -497,7 +510,7 @@ def _eval_counter(ctx, f_wc, meths):
                         before = len(got)
                         try:
                             it.budget = 4000
-                            it.call_function(counter, [])
+                            it.call_function(counter, [], outer=siblings)
                         except EvalUnsupported as e:
                             raise AnalysisError(f"C10: withCount counter is outside the evaluable subset: {e}")
                         except EvalAssert as e:
@@ -589,4 +602,15 @@ SILENT = [
     Silent("local-clock-reading", TASK, "                self._scheduleFrom(self.clock.seconds())\n            else:\n",
            "                finishedAt = self.clock.seconds()\n                self._scheduleFrom(finishedAt)\n            else:\n"),
     Silent("counter-comparison-flipped", TASK, "            if count > 0:\n                self._realLastTime = now\n", "            if not count <= 0:\n                self._realLastTime = now\n"),
+
+    # --- shapes of the independent refactor set (helpers extracted / inlined, sibling closures, one call site per branch)
+    Silent("take-helper-extracted", TASK, _EB, "            self.running = False\n            self._detachDeferred().errback(failure)\n",
+           more=[(TASK, "    def reset(self) -> None:\n", "    def _detachDeferred(self):\n        waiting, self._deferred = self._deferred, None\n        assert waiting is not None\n        return waiting\n\n    def reset(self) -> None:\n")]),
+    Silent("counter-uses-sibling-closure", TASK,
+           "                lastTime = self.starttime\n                if self._runAtStart:\n                    assert (\n                        self.interval is not None\n"
+           "                    ), \"Looping call called with None interval\"\n                    lastTime -= self.interval\n",
+           "                lastTime = firstBaseline()\n",
+           more=[(TASK, "        def counter() -> object:\n", "        def firstBaseline() -> float:\n            if not self._runAtStart:\n                return self.starttime\n            return self.starttime - self.interval\n\n        def counter() -> object:\n")]),
+    Silent("one-callLater-per-branch", TASK, "        self.call = self.clock.callLater(howLong(), self)\n",
+           "        if self.interval == 0:\n            self.call = self.clock.callLater(0, self)\n        else:\n            self.call = self.clock.callLater(howLong(), self)\n"),
 ]
